@@ -22,7 +22,13 @@ RULE = ("service sets of 1-5 services loaded from generated ODX XML (shared, nes
         "checked against the parameter-match verdict read off the description; x call histories on one layer object (per layer 4 "
         "(thorough: 8 for every 10th layer) probe calls, mostly own encodings walking through the same first byte: first call on a freshly "
         "loaded layer = reference, then the same call again, every other probe interleaved, the same call once more, and the same call "
-        "inside the main loop after hundreds of earlier calls); distinct = distinct (layer description, message, request, mode); "
+        "inside the main loop after hundreds of earlier calls); x layers with parents (quick 80, thorough 500 hierarchies + 2 corpus "
+        "hierarchies: ECU variant under a base variant, 25 % under a further functional group; every layer with services and global "
+        "negative responses of its own, local ones overriding inherited ones of the same short name, every PARENT-REF with independent "
+        "NOT-INHERITED-DIAG-COMMS / NOT-INHERITED-GLOBAL-NEG-RESPONSES lists incl. names of the other kind and unknown names; the ECU "
+        "variant is decoded on, messages additionally: the excluded / overridden global negative responses as answers to the requests "
+        "of every service, requests and responses of excluded / overridden services); "
+        "distinct = distinct (layer description, message, request, mode); "
         "non-trivial = the tree walk of the model returns at least one candidate service")
 TRUSTED = ["model lean/OdxVerif/Model/Dispatch.lean is hand-written; tied to diaglayer.py/diagservice.py/codec.py/servicebinner.py by "
            "comparing candidate lists, reported (service, coding object) lists incl. order and duplicates, error classes, constant "
@@ -32,6 +38,12 @@ TRUSTED = ["model lean/OdxVerif/Model/Dispatch.lean is hand-written; tied to dia
            "that oracle is itself checked, for every coding object x message x mode, against dispatch_lib.desc_verdict (hand-written, "
            "description level: message long enough for every parameter, NRC-CONST bytes one of the alternatives in both modes, "
            "PHYS-CONST value equal in strict mode): 'ok' iff the verdict is 'matches' (clause coding-object-match)",
+           "layers with parents: which services and global negative responses apply to the layer under test is computed from the "
+           "description by dispatch_lib.effective_owned (hand-written: along the chain of parents everything the PARENT-REF does not "
+           "exclude by short name is inherited, a local object replaces the inherited one of the same short name, the other local objects "
+           "follow); the model, the Spec and every oracle are fed with THAT list (objects looked up among the locally defined objects of "
+           "the layers), not with layer.services / layer.global_negative_responses; the two are also compared directly (clause "
+           "layer-contents); inheritance itself (all object kinds, several parents, priorities) is C09's subject",
            "history-independence is a model-free metamorphic oracle on the real code: the result list (order and duplicates included) of a "
            "call after other calls on the same layer object must equal the result of the same call as the first call on a freshly loaded "
            "layer; a main-loop violation is reported with the single-call witness only after it was reproduced as a first call"]
@@ -141,6 +153,20 @@ def messages_for(desc, view, rng, big):
             e = D.plain_bytes(gd, rq, rng)
             add(e, "own-gnr")
             pairs.append((e, rq, None))
+        # layers with parents: the global negative responses which do NOT apply to the layer (excluded by its PARENT-REF or
+        # overridden), written down as answers to the requests of its services
+        for gd in desc.get("ghost_gnrs", []):
+            e = D.plain_bytes(gd, rq, rng)
+            add(e, "not-applicable-gnr")
+            pairs.append((e, rq, None))
+    # ... and the requests / responses of the services which do not apply to it
+    for sd in desc.get("ghost_services", []):
+        rq = D.plain_bytes(sd["req"], rng=rng)
+        add(rq, "not-applicable-request")
+        for c in sd["pos"] + sd["neg"]:
+            e = D.plain_bytes(D.resolve(desc, c), rq, rng)
+            add(e, "not-applicable-response")
+            pairs.append((e, rq, None))
     # every byte string of length <= 3 over the prefix alphabet + {00, ff}
     freq = {}
     for sd in desc["services"]:
@@ -171,7 +197,7 @@ def messages_for(desc, view, rng, big):
     # responses against foreign / mutated requests
     extra = []
     for (e, rq, exp) in (pairs if big else rng.sample(pairs, min(len(pairs), 10))):
-        other = rng.choice(own)
+        other = rng.choice(own) if own else rq     # (a layer all of whose inherited services are excluded has no own encodings)
         extra.append((e, other, None))
         if rq:
             k = rng.randrange(len(rq))
@@ -183,7 +209,7 @@ def messages_for(desc, view, rng, big):
 # ---------------------------------------------------------------- history: decoding is a function of (layer, message)
 def fresh_view(desc):
     try:
-        return D.View(D.load_layer(desc))
+        return D.make_view(desc)
     except Exception:
         return None
 
@@ -334,11 +360,29 @@ def history_phase(ctx, rep, desc, probes):
 def eval_layer(ctx, rep, desc, rng, big, pending, corpus=None, hrng=None):
     """run the implementation on one layer; queue driver lines; returns nothing (see flush)"""
     try:
-        view = D.View(D.load_layer(desc))
+        view = D.make_view(desc)
     except Exception as e:
         ctx.count("layer_load_failed:" + type(e).__name__)
+        if "base" in desc:      # the flat layers load (0 failures measured); a hierarchy which does not is a finding
+            rep.violate("layer-contents", ["exception", type(e).__name__], "foreign:" + type(e).__name__,
+                        {"layer": desc, "msg": "", "req": None, "strict": True, "info": True},
+                        f"a layer with parents cannot be loaded / its locally defined objects are not found: {e!r}"[:300])
         return
-    view.dcod = D.desc_codings(desc)
+    if view.expected is not None:
+        ctx.count("layers_with_parents")
+        ctx.histo("hierarchy", f"levels={len(D.chain(desc))} gnrs={len(view.gnrs)} not-applicable-gnrs={len(view.ghost_gnrs)} "
+                               f"not-applicable-services={len(view.ghost_services)}")
+        # what the layer says it contains against the services / global negative responses which apply to it according to the
+        # description (the model and the Spec are fed with the latter)
+        for kind, how, names in D.impl_contents(view):
+            if how == "order":
+                ctx.disagree("layer-contents", {"layer": desc, "kind": kind}, "order of the description", names)
+                continue
+            ctx.histo("layer_contents_violation", f"{kind}/{how}")
+            rep.violate("layer-contents", [kind, how], "differs-from-description",
+                        {"layer": desc, "msg": "", "req": None, "strict": True, "info": True, "kind": kind, "names": names},
+                        f"the layer {'lists' if how == 'extra' else 'does not list'} the {kind}(s) {names} although the description "
+                        f"(parents, exclusion lists of the PARENT-REFs, overriding) says they {'do not apply' if how == 'extra' else 'apply'} to it")
     view.hist = [{"info": True}]          # everything that is done with this layer object, in order
     ctx.count("layers")
     ctx.histo("services_per_layer", len(view.services))
@@ -348,7 +392,7 @@ def eval_layer(ctx, rep, desc, rng, big, pending, corpus=None, hrng=None):
     if corpus is not None:
         cases = corpus
     else:
-        msgs, pairs = messages_for(desc, view, rng, big)
+        msgs, pairs = messages_for(view.eff, view, rng, big)
         cases = [("decode", m, None, tag, None) for m, tag in msgs] + [("response", e, rq, "pair", exp) for e, rq, exp in pairs]
     # history scenarios on fresh layer objects (before the main loop, which has a long history of its own)
     if corpus is not None:
@@ -492,10 +536,10 @@ def check_decode(ctx, rep, op, desc, view, info, line, impl, reply):
     # ---- direct oracle on the per-coding-object decoding the model takes as given: "parameters match M" read off the
     #      description alone (message long enough, NRC-CONST value one of the alternatives, PHYS-CONST value in strict
     #      mode) against request.decode / response.decode in this mode, for every coding object of the layer
-    dcod = getattr(view, "dcod", {})
+    dcod = getattr(view, "cdesc", {})
     for n, co in view.cobj.items():
         o = outs.get(n)
-        cd = dcod.get(getattr(co, "short_name", None))
+        cd = dcod.get(n)
         if cd is None or o is None or o == "foreign":
             continue
         why = D.desc_verdict(cd, msg, strict)
@@ -638,6 +682,30 @@ CORPUS = [
       "gnrs": [{"name": "gn", "params": [cc(0x7F), VAL8, VAL8]}]},
      [("decode", "7f1012", None), ("decode", "7f1022", None), ("decode", "7f1033", None), ("decode", "7f1133", None),
       ("response", "5003", "1003"), ("response", "7f1022", "1003")]),
+    # layers with parents (somersault shape: an ECU variant which does not inherit one of the global negative responses of
+    # its base variant): the excluded one must not be used, the other one must
+    ({"services": [], "gnrs": [], "not_inherited": {"services": [], "gnrs": ["gnHot"]},
+      "base": {"services": [{"name": "A", "req": {"name": "rqA", "params": [cc(0x10), VAL8]},
+                             "pos": [{"name": "pr", "params": [cc(0x50), {"k": "mr", "pos": 1, "len": 1}]}],
+                             "neg": [{"name": "n1", "params": [cc(0x7F), {"k": "mr", "pos": 0, "len": 1}, {"k": "nrc", "vals": [0x12, 0x13], "bl": 8}]}]}],
+               "gnrs": [{"name": "gnHot", "params": [cc(0x7F), {"k": "mr", "pos": 0, "len": 1}, cc(0xA7), VAL8]},
+                        {"name": "gnBusy", "params": [cc(0x7F), {"k": "mr", "pos": 0, "len": 1}, cc(0x21)]}]}},
+     [("decode", "7f10a705", None), ("decode", "7f1021", None), ("decode", "7f1012", None), ("decode", "1003", None),
+      ("response", "7f10a705", "1003"), ("response", "7f1021", "1003"), ("response", "5003", "1003")]),
+    # three levels: the base variant overrides a global negative response of the functional group and does not inherit one of
+    # its services; the ECU variant overrides a service and excludes the (overriding) global negative response
+    ({"services": [{"name": "A", "req": {"name": "rqA2", "params": [cc(0x10), cc(2), VAL8]}, "pos": [], "neg": []}], "gnrs": [],
+      "not_inherited": {"services": ["gn"], "gnrs": ["gn", "B"]},
+      "base": {"services": [], "gnrs": [{"name": "gn", "params": [cc(0x7F), {"k": "mr", "pos": 0, "len": 1}, cc(0x31)]}],
+               "not_inherited": {"services": ["B"], "gnrs": []},
+               "base": {"services": [{"name": "A", "req": {"name": "rqA", "params": [cc(0x10), VAL8]}, "pos": [], "neg": []},
+                                     {"name": "B", "req": {"name": "rqB", "params": [cc(0x22), VAL8]}, "pos": [], "neg": []},
+                                     {"name": "C", "req": {"name": "rqC", "params": [cc(0x2E), VAL8]}, "pos": [], "neg": []}],
+                        "gnrs": [{"name": "gn", "params": [cc(0x7F), {"k": "mr", "pos": 0, "len": 1}, VAL8]},
+                                 {"name": "gn2", "params": [cc(0x7F), {"k": "mr", "pos": 0, "len": 1}, cc(0x78), VAL8]}]}}},
+     [("decode", "100205", None), ("decode", "1005", None), ("decode", "2205", None), ("decode", "2e05", None),
+      ("decode", "7f1031", None), ("decode", "7f2e11", None), ("decode", "7f107805", None), ("decode", "7f2e7805", None),
+      ("response", "7f1031", "100205"), ("response", "7f2e7805", "2e05"), ("response", "7f227805", "2205")]),
 ]
 
 
@@ -657,6 +725,14 @@ def run(ctx):
         rng = ctx.sub_rng("layer", i)
         desc = D.gen_layer(rng)
         eval_layer(ctx, rep, desc, rng, big and i % 10 == 0, pending, hrng=ctx.sub_rng("history", i))
+        if len(pending) > 4000:
+            flush(ctx, rep, pending)
+    flush(ctx, rep, pending)
+    # layers with parents: ECU variant under a base variant (under a functional group), PARENT-REFs with exclusion lists
+    for i in range(500 if big else 80):
+        rng = ctx.sub_rng("hier-layer", i)
+        desc = D.gen_hier_layer(rng)
+        eval_layer(ctx, rep, desc, rng, big and i % 10 == 0, pending, hrng=ctx.sub_rng("hier-history", i))
         if len(pending) > 4000:
             flush(ctx, rep, pending)
     flush(ctx, rep, pending)
